@@ -203,23 +203,32 @@ fn exec(c: &Value) -> R {
                 okerr(v.shard(b"c16", &m, &[1; 16]))
             }
             // ---- roles and counts ----
-            "vinit_prio3" => {
+            "vinit_prio3" | "s2m_prio3" => {
                 let nagg = small(c, "nagg") as u8;
-                let (v, ctx, nonce, key) = count_setup(nagg);
-                let (ps, shares) = v.shard(&ctx, &true, &nonce).unwrap();
-                let id = us(c, "aid_s");
-                let share = shares[id.min(nagg as usize - 1)].clone();
-                okerr(v.verify_init(&key, &ctx, id, &(), &nonce, &ps, &share))
-            }
-            "s2m_prio3" => {
-                let nagg = small(c, "nagg") as u8;
-                let (v, ctx, nonce, key) = count_setup(nagg);
-                let (ps, shares) = v.shard(&ctx, &true, &nonce).unwrap();
-                let vs: Vec<_> = shares.iter().enumerate().map(|(j, sh)| v.verify_init(&key, &ctx, j, &(), &nonce, &ps, sh).unwrap().1).collect();
-                let cnt = small(c, "count") as usize;
-                // honest shares first, then repeats of the last one
-                let list: Vec<_> = (0..cnt).map(|k| vs[k.min(vs.len() - 1)].clone()).collect();
-                okerr(v.verifier_shares_to_message(&ctx, &(), list))
+                let id = if op == "vinit_prio3" { us(c, "aid_s") } else { 0 };
+                let cnt = if op == "s2m_prio3" { small(c, "count") as usize } else { 0 };
+                let is_vinit = op == "vinit_prio3";
+                // the same role / count scenario over types with and without joint randomness and with two proofs
+                fn go<V: Client<16> + Aggregator<32, 16, AggregationParam = ()>>(v: V, m: V::Measurement, nagg: u8, is_vinit: bool, id: usize, cnt: usize) -> Out
+                where V::InputShare: Clone, V::VerifierShare: Clone {
+                    let (ctx, nonce, key) = (b"c16".to_vec(), [7u8; 16], [9u8; 32]);
+                    let (ps, shares) = v.shard(&ctx, &m, &nonce).unwrap();
+                    if is_vinit {
+                        let share = shares[id.min(nagg as usize - 1)].clone();
+                        return okerr(v.verify_init(&key, &ctx, id, &(), &nonce, &ps, &share));
+                    }
+                    let vs: Vec<_> = shares.iter().enumerate().map(|(j, sh)| v.verify_init(&key, &ctx, j, &(), &nonce, &ps, sh).unwrap().1).collect();
+                    // honest shares first, then repeats of the last one
+                    let list: Vec<_> = (0..cnt).map(|k| vs[k.min(vs.len() - 1)].clone()).collect();
+                    okerr(v.verifier_shares_to_message(&ctx, &(), list))
+                }
+                match c["kind"].as_str().unwrap_or("count") {
+                    "histogram" => go(Prio3::new_histogram(nagg, 4, 2).unwrap(), 2usize, nagg, is_vinit, id, cnt),
+                    "sum" => go(Prio3::new_sum(nagg, 6).unwrap(), 5u64, nagg, is_vinit, id, cnt),
+                    "sumvec2proofs" => go(Prio3::<SumVec<Field64, ParallelSum<Field64, Mul>>, XofTurboShake128, 32>::new(nagg, 2, 0xffff_1602, SumVec::new(3, 3, 2).unwrap()).unwrap(),
+                                          vec![1u64, 2, 3], nagg, is_vinit, id, cnt),
+                    _ => go(Prio3::new_count(nagg).unwrap(), true, nagg, is_vinit, id, cnt),
+                }
             }
             "vinit_prio2" => {
                 let v = Prio2::new(3).unwrap();
